@@ -1208,7 +1208,14 @@ func (c *Context) quantize(d, v *Decimal, exp int32) Condition {
 		p := int32(d.NumDigits()) - diff
 		if p < 0 {
 			if !d.IsZero() {
-				d.Coeff.SetInt64(0)
+				// v is less than half a unit of 10^exp: the result is 0, or 1
+				// in the rounding modes that round such a value away from zero.
+				var zero BigInt
+				if c.Rounding.ShouldAddOne(&zero, d.Negative, -1) {
+					d.Coeff.SetInt64(1)
+				} else {
+					d.Coeff.SetInt64(0)
+				}
 				res = Inexact | Rounded
 			}
 		} else {
